@@ -1367,7 +1367,19 @@ class CodeGenerator(NodeVisitor):
         self.buffer(filter_frame)
         self.blockvisit(node.body, filter_frame)
         self.start_write(frame, node)
+
+        # The filter may return a plain string (``striptags``), which must
+        # be escaped like any other value that is output. Markup results
+        # pass through escape unchanged.
+        if frame.eval_ctx.volatile:
+            self.write("(escape if context.eval_ctx.autoescape else identity)(")
+        elif frame.eval_ctx.autoescape:
+            self.write("escape(")
+        else:
+            self.write("(")
+
         self.visit_Filter(node.filter, filter_frame)
+        self.write(")")
         self.end_write(frame)
         self.leave_frame(filter_frame)
 
@@ -1633,10 +1645,13 @@ class CodeGenerator(NodeVisitor):
         self.blockvisit(node.body, block_frame)
         self.newline(node)
         self.visit(node.target, frame)
-        self.write(" = (Markup if context.eval_ctx.autoescape else identity)(")
         if node.filter is not None:
+            # The filter may return a plain string, escape it instead of
+            # marking it safe. Markup results pass through unchanged.
+            self.write(" = (escape if context.eval_ctx.autoescape else identity)(")
             self.visit_Filter(node.filter, block_frame)
         else:
+            self.write(" = (Markup if context.eval_ctx.autoescape else identity)(")
             self.write(f"concat({block_frame.buffer})")
         self.write(")")
         self.pop_assign_tracking(frame)
